@@ -6,10 +6,42 @@ props = [json.loads(l) for l in open(os.path.join(V, 'properties.jsonl'))]
 
 # property -> (technique, level text, level note, design ref)
 CLAIMS = {
+ 'C01': ('TLA+ spec LSProtocol (TLC exhaustive 2 instances native+shadow, simulation 3 instances/2 keys); behaviours replayed on real Syncers (SendOnce/LoadOnce on LMDB + memory bucket) with state comparison after every step and a drain-to-convergence check',
+         'TLC checks Converged (under Quiescent), NoInvention and LSNeverBackwards on LSProtocol; every simulated behaviour is stepped through real Syncer objects and the projected LMDB content of every instance must equal the specification state after every step; a drain phase then checks identity of all instances and equality with an independent LWW reference.',
+         'Bounded: 2 instances/1 key exhaustively, 3 instances/2 keys by simulation; values and timestamps abstracted to small ordered classes, concretised three ways (bytes within a class sampled); shadow-mode stamps compared up to order-isomorphism; sweeper disabled.',
+         'DESIGN.md section 5 C01'),
  'C02': ('TLA+ spec LSData/MergeLaws checked exhaustively by TLC; TLC-evaluated function tables and all pair/triple orders replayed on the real NativeIterator and strategy.Update on LMDB',
          'TLC checks the per-key register invariant (stored = LWW winner of everything merged), the never-backwards action property and the algebraic laws over the whole finite domain; every row of the TLC-evaluated Merge/Clean tables is then executed on the real code under three byte-level concretisations, and every pair and triple of versions is merged in every order on a real LMDB and compared with the winner given by the specification order.',
          'Abstract domains: 3-4 ordered value classes, timestamps 0..3(4), formats 1..3, cut-offs {0,2,4}; bytes within a class are sampled. Order laws are claimed for cutoff 0 (stale-marker drop is order sensitive by design, DESIGN.md section 7).',
          'DESIGN.md section 5 C02'),
+ 'C03': ('TLA+ spec LSLoop (sync loop between yield points with LMDB transaction ids); TLC exhaustive + simulation; behaviours replayed by stepping the real syncLoop goroutine through verif yield hooks with application commits placed exactly at the prescribed points',
+         'TLC checks NoLocalLoss and LSNeverBackwards for every placement of application commits relative to the steps of syncLoop/LoadOnce/SendOnce; the real loop is stepped from yield point to yield point, LMDB content, LastTxnID and the loop\'s transaction-id variables are compared with the specification after every step and NoLocalLoss is evaluated on the real application DBI. The empty-transaction window is a named deviation of the model; its TLC counterexample is replayed on the real code and reported as a known finding.',
+         'One instance + environment, one key, <=2 application commits, <=2 remote snapshots, <=1 crash per behaviour (quick); LMDB transaction-id facts assumed as measured on the real library; yield points are outside LMDB transactions.',
+         'DESIGN.md section 5 C03'),
+ 'C04': ('TLA+ specs LSProtocol (with load cut-off) and Retention; TLC exhaustive/simulation; behaviours replayed on real Syncers incl. sweeper configuration; Retention rows and seeded configurations on the real config.Sweeper',
+         'TLC checks LSNeverBackwards, MergeDominates and NoBounce (with and without a stale-marker cut-off) and the arithmetic RDMC <= RD; protocol behaviours with deletions are replayed on real Syncers where after every merge the real store must dominate every version of the merged snapshot, and every snapshot must carry every marker; the retention table and 20 000 seeded sweeper configurations are evaluated on the real config methods.',
+         'Bounded as C01; real durations compared with the integer model within 1 s / 1e-6 because RetentionDays is a float32; retention_days >= 0.',
+         'DESIGN.md section 5 C04'),
+ 'C05': ('TLA+ spec LSLoop with crash/restart (LMDB kept or emptied), Store faults and own-snapshot delivery; behaviours replayed on the real stepped loop with a fault-injecting bucket; every stored blob decoded',
+         'TLC checks NoUploadBeforeOwnMerged and BucketMonotone over crashes at every yield point, restarts with kept or emptied LMDB and Store failures within and beyond the retry budget; the same behaviours are replayed on the real loop (goroutine unwound at the yield point = crash), each stored blob is decoded and compared with the previous newest one and the own-snapshot guard is evaluated on the real run.',
+         'One instance + environment at loop level; the interaction with cleaners of other instances is decided by the Cleaner model of C12 (separate check); application writes monotone per key.',
+         'DESIGN.md section 5 C05'),
+ 'C09': ('TLA+ spec LSLoop; TLC exhaustive + simulation incl. Store failures; behaviours replayed through the real stepped loop; PublishedWhenIdle evaluated on the decoded newest own blob',
+         'TLC checks PublishedWhenIdle for every placement of application commits and every number of failing Store calls up to the retry budget; on the real loop the newest own blob is decoded at every idle point and must cover every application commit the harness made up to the LastTxnID the loop read. The empty-transaction window counterexample is replayed on the real code and reported as a known finding.',
+         'Bounds as C03; "idle" = the loop reached its sleep and is not waiting for its own old snapshot (DESIGN.md section 7).',
+         'DESIGN.md section 5 C09'),
+ 'C10': ('TLA+ specs LSProtocol (changed flags, pendingLocal) and LSLoop (NoEchoUpload); behaviours replayed on real Syncers/real loop with LastTxnID observed around every LS step, with and without header padding',
+         'On the real code a LoadOnce that the specification flags as changing nothing must not record an LMDB transaction, SendOnce records one only when it captured something (shadow), and the real loop decides to upload only after an application commit or at start-up (TLC action property NoEchoUpload, also evaluated by the harness on the real run).',
+         'Dupsort-hack DBIs excluded from the no-commit clause; creating a missing DBI is a legitimate commit; forced-interval snapshots not modelled (timer).',
+         'DESIGN.md section 5 C10'),
+ 'C11': ('TLA+ specs LSData (MainToShadow/ShadowToMain) and LSProtocol shadow mode (MirrorFaithful, CaptureFaithful); TLC on the design and on the code-as-is model; behaviours and the TLC counterexample replayed on real Syncers',
+         'TLC shows the design satisfies MirrorFaithful/CaptureFaithful and that the model of the code as it is violates MirrorFaithful for empty values; shadow-mode behaviours are replayed on real Syncers under 3 value and 7 key concretisations (NUL/0xff/511-byte keys, MDB_INTEGERKEY with key 0) comparing the application DBI with the live projection of the real shadow DBI; the counterexample is reproduced on the real code and reported as known finding F3.',
+         'Steady state only; stamps up to order-isomorphism; inputs that crash lmdb-go RawRead (empty value behind an even-length key at the end of the last page) are excluded from replays and recorded as finding F10.',
+         'DESIGN.md section 5 C11'),
+ 'C19': ('TLA+ spec Strategy (loop state machines of Update/IterUpdate/EmptyPut checked against a map reference by TLC); every case replayed on a real LMDB with a scripted iterator under 7 key concretisations',
+         'TLC checks every terminal state of the three loop machines against the reference over all stored contents x inputs x decisions; the exported cases are executed on a real LMDB through the real strategies with byte-ordered and MDB_INTEGERKEY keys, checking content, order, rejection of unsorted input and that the iterator was handed the stored value.',
+         '4 abstract keys, inputs up to length 4 (unsorted up to 2, thorough 3); LMDB cursor semantics assumed as modelled.',
+         'DESIGN.md section 5 C19'),
 }
 
 def sh(*a):
